@@ -13,6 +13,7 @@
     Element.setAttrNS           -> `setAttrNS`
     Element.setAttribute        -> `setAttribute`
     Element.removeAttribute     -> `removeAttribute`
+    draw.StyleRefElement        -> `styleRefConstruct` (argument checks, then Element.__init__)
     Element.__init__            -> `construct`  (`ctorText`, `ctorCData`, attribute loops `applyAttrs`,
                                    `checkRequired`, and `ctorAttach`: parent= last)
 
@@ -446,6 +447,18 @@ def construct (self : Id) (qn : Nat) (allowsText : Bool)
   applyAttrs self attrs                               -- the three attribute loops
   checkRequired self required                         -- "Required attribute missing"
   ctorAttach self parent                              -- the parent is attached last
+
+/-- `draw.StyleRefElement(stylename=…, classnames=…, **args)` — the wrapper behind the draw / dr3d /
+    office:annotation factories: the family of `stylename` and of `classnames[0]` is checked FIRST
+    (`pre` = the verdict: ValueError for a wrong family, IndexError/AttributeError → `Other` for an empty
+    list or a non-style), only then `Element(qattributes=…, **args)` runs -/
+def styleRefConstruct (pre : Except Err Unit) (self : Id) (qn : Nat) (allowsText : Bool)
+    (text : Option (Id × Bool)) (cdata : Option Id)
+    (attrs : List AttrArg) (required : List Nat) (parent : Option (Id × Bool)) : M Unit := do
+  match pre with
+  | .error e => raise e                                -- raise ValueError("Style's family must be …")
+  | .ok _ => pure ()
+  construct self qn allowsText text cdata attrs required parent   -- return Element(qattributes=qattrs, **args)
 
 /-! ### the operations of an edit history -/
 
